@@ -370,6 +370,10 @@ def duplicates(codebase: CodeBase, stream: TextIO = sys.stdout):
         print("No duplicates found.", file=stream)
         return
 
+    # Sort the paths of each match, and the matches themselves, so that the
+    # report does not depend on set iteration or directory enumeration order.
+    confirmed_matches = sorted(sorted(matches) for matches in confirmed_matches)
+
     for i, matches in enumerate(confirmed_matches):
         print(f"Match {i}:", file=stream)
         for path in matches:
